@@ -26,6 +26,33 @@ pub enum Mode {
 pub enum Case {
     Sign { key: Key, msg: Bytes, sha256d: bool, mode: Mode, other: Scalar, flip: u16 },
     Ecdh { a: Key, b: Key },
+    /// caller-supplied 32-byte digests at the boundaries of the scalar range (0, 1, n-1, n, n+1, p, 2^256-1, …)
+    DigestEdge { key: Key, digest: Scalar256 },
+}
+
+/// a 256-bit value: n + delta, p + delta, 2^256 - 1 - delta, small, or arbitrary bytes
+#[derive(Clone, Debug, Serialize, Deserialize)]
+pub enum Scalar256 {
+    NPlus(i8),
+    PPlus(i8),
+    MaxMinus(u8),
+    Small(u8),
+    Bytes(#[serde(with = "crate::gen::hexser")] Vec<u8>),
+}
+
+impl Scalar256 {
+    pub fn bytes(&self) -> [u8; 32] {
+        let two256 = BigUint::from(1u8) << 256usize;
+        let off = |base: BigUint, d: i8| if d >= 0 { base + BigUint::from(d as u8) } else { base - BigUint::from((-(d as i16)) as u8) };
+        let v = match self {
+            Scalar256::NPlus(d) => off(secp::n(), *d),
+            Scalar256::PPlus(d) => off(secp::p(), *d),
+            Scalar256::MaxMinus(d) => &two256 - BigUint::from(1u8) - BigUint::from(*d),
+            Scalar256::Small(v) => BigUint::from(*v),
+            Scalar256::Bytes(b) => BigUint::from_bytes_be(b),
+        } % &two256;
+        secp::be32(&v)
+    }
 }
 
 fn digest_of(msg: &[u8], sha256d: bool) -> [u8; 32] {
@@ -58,7 +85,7 @@ impl Property for C05 {
     const ID: &'static str = "C05";
 
     fn rule() -> String {
-        "Keys from the boundary set (1, 2, 3, n-1, n-2, n-3, (n-1)/2 +/- 1, 2^k +/- 1) and uniform, both compression settings; messages of 0..300 bytes and up to 10 KiB; SHA-256 and double SHA-256; five signing entry points (deterministic nonce in both byte-order modes, caller nonce from the same boundary set, randomised nonce, pre-hashed digest, PrivateKey::sign_message). Oracle: reference secp256k1 / RFC 6979 (HMAC-SHA256 DRBG, bits2octets, low-S) on num-bigint: deterministic signers must return exactly the reference (r, s), twice; sign_with_k must return r = (kG).x mod n, s = lowS(k^-1 (z + r d)); every signature must verify under the reference verifier with z = big-endian digest and under the library's verify entry points, have s <= (n-1)/2, and must not verify for a flipped or extended message, the other hash, or another key. ECDH: both directions equal the x coordinate of the reference a*B, for both encodings of the peer key. Non-trivial = a boundary-class key or nonce, a signature whose un-normalised s was above n/2 (measured with the reference), or any case (each includes negative checks); distinct by hash of the serialised case.".into()
+        "Caller-supplied digests at the scalar-range boundaries (0, 1, n-1, n, n+1, p, 2^256-1) for the pre-hashed signer, verifier and recovery. Keys from the boundary set (1, 2, 3, n-1, n-2, n-3, (n-1)/2 +/- 1, 2^k +/- 1) and uniform, both compression settings; messages of 0..300 bytes and up to 10 KiB; SHA-256 and double SHA-256; five signing entry points (deterministic nonce in both byte-order modes, caller nonce from the same boundary set, randomised nonce, pre-hashed digest, PrivateKey::sign_message). Oracle: reference secp256k1 / RFC 6979 (HMAC-SHA256 DRBG, bits2octets, low-S) on num-bigint: deterministic signers must return exactly the reference (r, s), twice; sign_with_k must return r = (kG).x mod n, s = lowS(k^-1 (z + r d)); every signature must verify under the reference verifier with z = big-endian digest and under the library's verify entry points, have s <= (n-1)/2, and must not verify for a flipped or extended message, the other hash, or another key. ECDH: both directions equal the x coordinate of the reference a*B, for both encodings of the peer key. Non-trivial = a boundary-class key or nonce, a signature whose un-normalised s was above n/2 (measured with the reference), or any case (each includes negative checks); distinct by hash of the serialised case.".into()
     }
 
     fn assumptions() -> Vec<String> {
@@ -85,6 +112,13 @@ impl Property for C05 {
         prop_oneof![
             8 => (keys::key(), msg, any::<bool>(), mode, keys::scalar(), any::<u16>()).prop_map(|(key, msg, sha256d, mode, other, flip)| Case::Sign { key, msg, sha256d, mode, other, flip }),
             1 => (keys::key(), keys::key()).prop_map(|(a, b)| Case::Ecdh { a, b }),
+            1 => (keys::key(), prop_oneof![
+                    3 => (-3i8..=3).prop_map(Scalar256::NPlus),
+                    1 => (-2i8..=2).prop_map(Scalar256::PPlus),
+                    2 => (0u8..4).prop_map(Scalar256::MaxMinus),
+                    1 => (0u8..4).prop_map(Scalar256::Small),
+                    1 => prop::collection::vec(any::<u8>(), 32).prop_map(Scalar256::Bytes),
+                ]).prop_map(|(key, digest)| Case::DigestEdge { key, digest }),
         ]
         .boxed()
     }
@@ -196,6 +230,36 @@ impl Property for C05 {
                 });
                 o.label(if sha256d { "sha256d" } else { "sha256" });
                 o.label_if(!key.compressed, "uncompressed");
+            }
+            Case::DigestEdge { key, digest } => {
+                let dg = digest.bytes();
+                let d = key.d.value();
+                let sk = key.lib();
+                let pk = sk.to_public_key().map_err(|e| failure("to_public_key", e.to_string(), "Ok"))?;
+                // z is the digest reduced modulo n, for signing and for verifying alike
+                let z = secp::from_be(&dg) % secp::n();
+                let sig = lib_call("sign_digest_with_deterministic_k", || ECDSA::sign_digest_with_deterministic_k(&sk, &dg))?.map_err(|e| failure("sign_digest", format!("Err({}) for digest {}", e, hex::encode(dg)), "Ok"))?;
+                let (r, s) = rs_of(&sig);
+                let want = secp::sign_rfc6979(&d, &dg, &dg);
+                if (r.clone(), s.clone()) != (want.r.clone(), want.s.clone()) {
+                    return Err(failure("signature_equals_reference", format!("digest {}: r={:x} s={:x}", hex::encode(dg), r, s), format!("r={:x} s={:x}", want.r, want.s)));
+                }
+                ensure!(s <= secp::half_n(), "low_s", format!("s={:x}", s), "s <= (n-1)/2");
+                ensure!(secp::verify(&key.point(), &z, &r, &s), "verifies_under_reference", "does not verify", format!("valid for z = digest mod n, digest {}", hex::encode(dg)));
+                ensure!(accepts(lib_call("verify_hashbuf", || ECDSA::verify_hashbuf(&dg, &pk, &sig))?), "verify_hashbuf_accepts", format!("not accepted for digest {}", hex::encode(dg)), "Ok(true): the signature was made over this digest");
+                // recovery from the digest finds the signer
+                let compact = sig.to_compact_bytes(None);
+                let parsed = Signature::from_compact_bytes(&compact).map_err(|e| failure("from_compact_bytes", e.to_string(), "Ok"))?;
+                let rec = lib_call("recover_public_key_from_digest", || parsed.recover_public_key_from_digest(&dg))?.map_err(|e| failure("recover_from_digest", format!("Err({}) for digest {}", e, hex::encode(dg)), "the signer's key"))?;
+                ensure_eq_hex!(rec.to_bytes().map_err(|e| failure("pub_to_bytes", e.to_string(), "Ok"))?, key.pub_bytes(), "recover_from_edge_digest");
+                // a different digest is rejected
+                let mut other = dg;
+                other[31] ^= 1;
+                if secp::from_be(&other) % secp::n() != z {
+                    ensure!(!accepts(lib_call("verify_hashbuf", || ECDSA::verify_hashbuf(&other, &pk, &sig))?), "rejects_other_digest", "accepted", "rejected");
+                }
+                o.nt("edge-digest");
+                o.label_if(secp::from_be(&dg) >= secp::n(), "digest>=n");
             }
             Case::Ecdh { a, b } => {
                 let (ska, skb) = (a.lib(), b.lib());
